@@ -1,5 +1,6 @@
 """C09 - route lookup is longest-prefix match over consistent subnet arithmetic."""
 from vf.parts import kani_part
+from vf.mirxparts import iptable_part
 
 EXPLANATION = 'Kani: subnet arithmetic over all 32-bit addresses and all mask lengths; Obm order. mirx (when present): IpTable lookups.'
 
@@ -17,14 +18,17 @@ def run(ctx):
         outside='CIDR mask text via u32::from_str (CBMC aborts on the std integer parser with symbolic digits; the mask value itself is covered for '
                 'all u32 through from_bitcount); table-level lookups are the mirx part',
         jobs=8, timeout=900 if ctx.quick else 1800)
+    yield iptable_part(ctx)
 
 
 MANIFEST = {
-    'engine': 'kani',
-    'technique': 'bounded model checking (Kani/CBMC, SAT) of the real subnet arithmetic and table-key order over all 32-bit inputs',
+    'engine': 'kani + mirx',
+    'technique': 'Kani/CBMC (SAT) on subnet arithmetic and key order over all 32-bit inputs; mirx symbolic execution of the real IpTable MIR against a longest-prefix-match reference (z3)',
     'level_text': 'SAT-decided for every address, every mask length and every pair/triple of networks: contains <=> id <= a <= broadcast, overlaps <=> ranges '
                   'intersect (symmetric), range -> network succeeds exactly for aligned power-of-two blocks with the right error otherwise, mask construction, and '
                   'that the table key order is a total order putting longer masks first (the fact longest-prefix lookup relies on).',
-    'level_note': 'Trusts Kani/CBMC. Table-level longest-prefix lookup over BTreeMap is decided by the mirx part when present in the evidence; BTreeMap itself is '
-                  'outside Kani\'s reach here (measured out-of-memory with two symbolic entries).',
+    'level_note': 'Arithmetic: full input space (Kani). Table: every sequence of 3/4 add/add_direct/remove/remove_direct operations over symbolic networks (mask length 0..=32 '
+                  'symbolic) followed by a symbolic lookup is executed on the real IpTable MIR with BTreeMap modelled as a list sorted by the real Obm::cmp; z3 decides that the result '
+                  'is the value of the most specific alive network containing the address (order-independent by construction of the reference) and that add/remove return the '
+                  'previous value. Trusts Kani/CBMC, mirx + BTreeMap model, z3; violations are re-run natively.',
 }
